@@ -81,6 +81,25 @@ Proof.
 Qed.
 Print Assumptions decompose_no_spurious_contours.
 
+(* ... and it contains every contour of the resolved glyph at least once: what the
+   visited set drops is a repetition of a contour that is there.  (Needs the
+   equality test on transforms to be an equality test, and an acyclic graph.) *)
+Theorem decompose_loses_no_contour : forall P T tmul tid act tneg tovf teqb,
+  transform_laws P T tmul tid act ->
+  (forall a b : T, teqb a b = true -> a = b) -> (forall a : T, teqb a a = true) ->
+  forall r fuel (F : font P T) (g g' : glyph P T) d cs,
+    wf r F ->
+    decompose P T tmul tid act tneg tovf teqb fuel F g = Some (g', d) ->
+    gres act F g cs -> csub cs (g_contours g').
+Proof.
+  intros P T tmul tid act tneg tovf teqb (Hm & Hi) He Hr. intros. eapply decompose_covers; eauto.
+Qed.
+Print Assumptions decompose_loses_no_contour.
+
+Theorem affine_key_equality : (forall a b : aff, aff_eqb a b = true -> a = b) /\ (forall a : aff, aff_eqb a a = true).
+Proof. split; [exact aff_eqb_eq|exact aff_eqb_refl]. Qed.
+Print Assumptions affine_key_equality.
+
 (* The multiset of contours is NOT preserved in general: two parents reaching
    the same base under the same accumulated transform at the same component
    position are merged by the visited set (key = location, base, transform,
@@ -127,6 +146,29 @@ Theorem split_preserves_resolve : forall P T tid act tovf,
     exists cs', gres act (upd P T F nf (split_simple P T tovf g)) (split_composite P T tid tovf g nf) cs' /\ ceqs cs cs'.
 Proof. intros. eapply split_looks; eauto. Qed.
 Print Assumptions split_preserves_resolve.
+
+(* the hypotheses of the four theorems are met by a glyph of the example source
+   (nesting depth 3, flipped and scaled components, a mixed glyph, a non-export glyph) *)
+Example rewrites_nonvacuous :
+  let g := mk [] [(Src 2, shift (qz 1) 0 50); (Src 1, scale (qz 1))] true in
+  (exists cs, q_gsem 6 ex_font g = Some cs /\ length cs = 4%nat) /\
+  (exists g', q_decompose 20 ex_font g = Some (g', false) /\ length (g_contours g') = 4%nat) /\
+  (exists g', q_flatten 20 ex_font g = Some (g', true)) /\
+  (exists g', q_flatten 20 ex_font (mk [] [(Src 1, scale (qz 1))] true) = Some (g', false)
+              /\ g_comps g' = [(Src 0, aff_mul (scale (qz 1)) (shift (qq 3 2) 10 0))]) /\
+  g_comps (q_inline ex_font g) = [(Src 2, shift (qz 1) 0 50); (Src 0, aff_mul (scale (qz 1)) (shift (qq 3 2) 10 0))] /\
+  ex_font (Der 3 0) = None.
+Proof.
+  cbv zeta. repeat split.
+  - destruct (q_gsem 6 ex_font _) as [cs|] eqn:E; [|vm_compute in E; discriminate].
+    exists cs; split; auto. vm_compute in E. inversion E; reflexivity.
+  - destruct (q_decompose 20 ex_font _) as [[g' d]|] eqn:E; [|vm_compute in E; discriminate].
+    vm_compute in E. inversion E; subst. eexists; split; reflexivity.
+  - destruct (q_flatten 20 ex_font _) as [[g' d]|] eqn:E; [|vm_compute in E; discriminate].
+    vm_compute in E. inversion E; subst. eexists; reflexivity.
+  - destruct (q_flatten 20 ex_font (mk [] [(Src 1, scale (qz 1))] true)) as [[g' d]|] eqn:E; [|vm_compute in E; discriminate].
+    vm_compute in E. inversion E; subst. eexists; split; reflexivity.
+Qed.
 
 (* ---- a rewritten glyph inside a font -------------------------------------------------- *)
 (* Putting, in place of glyph x, any glyph that looks like x and refers only to
